@@ -1,7 +1,7 @@
 (* C10/Property.v — the property theorems and nothing else. *)
 From Coq Require Import String List Bool.
 Import ListNotations.
-From SM Require Import C10.Model C10.Proofs.
+From SM Require Import C10.Model C10.Proofs Gen.C10_code.
 Open Scope string_scope.
 
 Theorem C10_unknown_refused_direct : forall table keys k,
@@ -32,3 +32,12 @@ Theorem C10_select_is_filter : forall (A : Type) (keep : A -> bool) (l : list A)
   sublist (select A keep l) l /\ (forall x, In x (select A keep l) <-> In x l /\ keep x = true).
 Proof. exact @select_is_filter. Qed.
 Print Assumptions C10_select_is_filter.
+
+(* the keys direct_model._pop_par_weights consumes, translated from the text of direct_model.py on every run
+   (value and, for dispersible parameters, the four dispersity suffixes; get_mesh pops them for every call parameter
+   from a copy of the caller's dictionary and raises if anything is left), are the model's [accepted] as a set: the
+   refusal theorems above speak about the code *)
+Theorem C10_code_accepted : forall table k,
+  memb k (flat_map code_accepted_for table) = memb k (accepted table).
+Proof. exact code_accepted_same. Qed.
+Print Assumptions C10_code_accepted.
